@@ -415,5 +415,6 @@ def rule_root(repo: Repo) -> RuleResult:
 
 
 def rules(repo: Repo, tier: str) -> List[RuleResult]:
-    return [rule_conform(repo), rule_direction(repo), rule_closure(repo), rule_identity(repo), rule_parentlink(repo),
+    from . import c01
+    return [c01.rule_typedlist(repo, "C06.typedlist", ["DomainParser.parse_types"], lookup_required=False), rule_conform(repo), rule_direction(repo), rule_closure(repo), rule_identity(repo), rule_parentlink(repo),
             rule_walk(repo), rule_root(repo)]
